@@ -49,7 +49,7 @@ fn run(input: RunInput) -> ScenFuture {
         let w = World::new(&input, LinkCfg::clean(200, 3_000));
         let lossy = w.flag("lossy", 0.25);
         let lat_max = w.param("lat_max_us", 300, 20_000) as u64;
-        let n_ops = w.param("ops", 1, 60) as usize;
+        let n_ops = w.param("ops", 1, if w.tier == Tier::Quick { 60 } else { 150 }) as usize;
         let max_bidi = w.param("h_max_bidi_streams", 4, 100) as u64;
         let frame_limit = w.flag("h_frame_limit", 0.3).then(|| w.param("h_max_frame", 64, 100_000) as usize);
         let mut cfg = base_config(10_000, Some(2_000));
